@@ -150,7 +150,7 @@ def run(ctx):
                 kinds[recs[i - 1].get("e")] = kinds.get(recs[i - 1].get("e"), 0) + 1
             ctx.violation("%d recorded results not explained by %s, kinds %s, first: %s" % (len(newbad), mod.replace("Trace_", "") + ".tla", json.dumps(kinds, sort_keys=True), json.dumps(out[0])[:200]), rp)
     for e in ("C1", "DF", "FI", "RC", "TW", "TWN", "MEAN", "SEP", "CN", "CS", "MED", "THR", "TRUNC", "CHAIN", "ON1", "ELT", "RAMP", "RT"):
-        if not ctx.replay and counts.get(e, 0) == 0:
+        if not ctx.replay and not ctx.violations and counts.get(e, 0) == 0:
             raise lib.ModelFailure("no %s event recorded" % e)
     for rec in (lib.read_ndjson(pieces[0][1])[:2] if pieces else []):
         ctx.sample({k: (v if not isinstance(v, list) or len(v) <= 8 else v[:8] + ["..."]) for k, v in rec.items()})
